@@ -486,6 +486,8 @@ func (lmd *Daemon) initializePeers(ctx context.Context) {
 				peer.Stop()
 				peer.data.Store(nil)
 				lmd.PeerMapRemove(conn.ID)
+				// the settings have changed, a new peer has to be created from them
+				peer = nil
 			}
 		}
 
